@@ -440,6 +440,17 @@ func (ctx *RenderContext) CallMacro(w io.Writer, name string, args []interface{}
 
 // CallFunction calls a function with the given arguments
 func (ctx *RenderContext) CallFunction(name string, args []interface{}) (interface{}, error) {
+	// Every function call goes through here, so this is where a sandboxed context
+	// consults the security policy
+	if ctx.sandboxed {
+		if ctx.env == nil || ctx.env.securityPolicy == nil {
+			return nil, fmt.Errorf("cannot call function '%s' in a sandboxed context without a security policy", name)
+		}
+		if !ctx.env.securityPolicy.IsFunctionAllowed(name) {
+			return nil, NewFunctionViolation(name)
+		}
+	}
+
 	// Check if it's a function in the environment
 	if ctx.env != nil {
 		if fn, ok := ctx.env.functions[name]; ok {
